@@ -376,6 +376,16 @@ def rule_underlying_only_for_primitives(repo: Repo, rep: Report, rule: str = "R1
             def ev(e: ast.AST, t):
                 if isinstance(e, ast.Constant):
                     return e.value
+                # a constant of the class / the module (`self._PRIMITIVE_ALIAS_TYPES`, `_PRIMITIVE_TYPES`): its literal value
+                cname = e.attr if isinstance(e, ast.Attribute) and isinstance(e.value, ast.Name) and e.value.id in ("self", "cls", fn.cls.name if fn.cls else "") else (
+                    e.id if isinstance(e, ast.Name) else None)
+                if cname is not None:
+                    bodies = ([fn.cls.node.body] if fn.cls is not None else []) + [sr.tree.body]
+                    for body in bodies:
+                        for st in body:
+                            tg = st.targets[0] if isinstance(st, ast.Assign) and len(st.targets) == 1 else getattr(st, "target", None) if isinstance(st, ast.AnnAssign) else None
+                            if isinstance(tg, ast.Name) and tg.id == cname and isinstance(getattr(st, "value", None), (ast.Tuple, ast.List, ast.Set, ast.Constant)):
+                                return ev(st.value, t)
                 if isinstance(e, ast.Call) and isinstance(e.func, ast.Name) and e.func.id == "getattr" and len(e.args) >= 2 and const_str(e.args[1]) == "type":
                     return t
                 if isinstance(e, ast.Attribute) and e.attr == "type":
@@ -430,10 +440,19 @@ def rule_mapping_fallback(repo: Repo, rep: Report, rule: str = "R14.8") -> None:
     if col is None:
         raise AnalysisError("anchor vanished: DiscriminatorEnumCollector")
     done = False
-    for fn in col.methods.values():
+    from sa.flatten import flatten as _fl148
+
+    for fn0 in col.methods.values():
+        fn = _fl148(fn0)  # parts of the per-variant work may be helpers of the collector: written out
         L = _L(fn.node)
-        # the table built from discriminator.mapping: a dict local filled inside a loop over `<…>.mapping.items()`
+        # the table built from discriminator.mapping: a dict local filled inside a loop over `<…>.mapping.items()` - or a dict comprehension over it
         tables = set()
+        for st in own_nodes(fn.node):
+            if isinstance(st, (ast.Assign, ast.AnnAssign)) and isinstance((st.targets[0] if isinstance(st, ast.Assign) else st.target), ast.Name) and st.value is not None:
+                for dc in [x for x in ast.walk(st.value) if isinstance(x, ast.DictComp)]:
+                    it = dc.generators[0].iter
+                    if isinstance(it, ast.Call) and isinstance(it.func, ast.Attribute) and it.func.attr == "items" and isinstance(it.func.value, ast.Attribute) and it.func.value.attr == "mapping":
+                        tables.add((st.targets[0] if isinstance(st, ast.Assign) else st.target).id)
         for lp in own_nodes(fn.node):
             if isinstance(lp, ast.For) and isinstance(lp.iter, ast.Call) and isinstance(lp.iter.func, ast.Attribute) and lp.iter.func.attr == "items" \
                     and isinstance(lp.iter.func.value, ast.Attribute) and lp.iter.func.value.attr == "mapping":
